@@ -110,6 +110,7 @@ class Engine(object):
         self.pc = []          # path condition: list of bool terms (decisions + assumptions)
         self.axioms = []      # path-local axioms of uninterpreted primitives
         self.nonlinear = False  # path condition / axioms contain nonlinear terms
+        self.kinks = 0
         self.poison = set()   # names of 'undefined value' symbols created on this path
         self.hashed = []      # (term, token) pairs for hash-by-entailment
         self.fresh = 0
@@ -135,6 +136,16 @@ class Engine(object):
             r = str(self.solver.check(*extra))
         self.tsolver += time.time() - t0
         return r
+
+    def fresh_solver_abs(self, timeout_ms=None):
+        """Fresh solver over the app-abstracted path condition (pure NRA; see terms.to_z3_abs)."""
+        s = z3.Solver()
+        s.set('timeout', timeout_ms or self.branch_timeout_ms)
+        for c in self.pc:
+            s.add(T.to_z3_abs(c))
+        for c in self.axioms:
+            s.add(T.to_z3_abs(c))
+        return s
 
     def fresh_solver(self, timeout_ms=None):
         """A non-incremental solver holding the current path condition and axioms.
@@ -669,8 +680,10 @@ def sv_var(name, sort=T.R):
 
 def tolift(x):
     """Anything scalar-like -> SV (concrete numbers become constants)."""
-    if isinstance(x, SV):
+    if isinstance(x, (SV, SC, SD)):
         return x
+    if isinstance(x, np.ndarray) and x.ndim == 0:
+        return tolift(x[()])
     return SV(lift(x))
 
 
@@ -899,21 +912,40 @@ class SD(object):
         return SD(self.v.cos(), -(self.v.sin() * self.t))
 
     def __abs__(self):
-        if self.v >= 0:       # forks; the kink itself is a documented exclusion
+        if self >= 0:       # forks; the kink itself (v == 0) is excluded, see _strict
             return SD(self.v, self.t)
         return SD(-self.v, -self.t)
 
+    def _strict(self, o):
+        """Comparisons of dual numbers decide which smooth piece a value lies on.  A tie is a
+        (documented) non-differentiable point of the piecewise definition: the tie is excluded from
+        the path (the property quantifies over points of differentiability); recorded in ENG.notes."""
+        o = SD.co(o)
+        if o is None:
+            return None
+        if ENG.active:
+            tie = T.eq(self.v.t, o.v.t)
+            if tie.op != 'false':
+                ENG.notes.append('kink excluded: %s' % T.to_str(tie, 3))
+                ENG.kinks += 1
+                ENG.assume(T.not_(tie))
+        return o
+
     def __lt__(self, o):
-        return self.v < SD.co(o).v
+        o = self._strict(o)
+        return NotImplemented if o is None else self.v < o.v
 
     def __le__(self, o):
-        return self.v <= SD.co(o).v
+        o = self._strict(o)
+        return NotImplemented if o is None else self.v <= o.v
 
     def __gt__(self, o):
-        return self.v > SD.co(o).v
+        o = self._strict(o)
+        return NotImplemented if o is None else self.v > o.v
 
     def __ge__(self, o):
-        return self.v >= SD.co(o).v
+        o = self._strict(o)
+        return NotImplemented if o is None else self.v >= o.v
 
     def __eq__(self, o):
         o = SD.co(o)
